@@ -180,6 +180,11 @@ func run() int {
 	rep := &Report{Prop: prop, Tier: tier, DB: db, Start: t0, LoadSecs: loadSecs, Unknown: map[string]bool{}, Notes: map[string]bool{}}
 	var allPaths []*PathResult
 	genStart := time.Now()
+	// functions in scope: those with a clause tagged for the property, plus
+	// (transitively) every in-module function whose contract their proofs use,
+	// so that the untagged (structural) clauses relied upon are checked too
+	var work []string
+	queued := map[string]bool{}
 	for _, k := range keys {
 		c := db.Contracts[k]
 		if *flagFn != "" && !strings.Contains(k, *flagFn) {
@@ -188,19 +193,30 @@ func run() int {
 		if prop != "" && !c.Props[prop] && !(prop == "C14" && !c.NoSafety) {
 			continue
 		}
+		work = append(work, k)
+		queued[k] = true
+	}
+	for len(work) > 0 {
+		k := work[0]
+		work = work[1:]
+		c := db.Contracts[k]
 		fn := funcIndex[k]
 		if fn == nil {
 			rep.Missing = append(rep.Missing, MissingFn{Key: k, Props: c.propList(), File: c.File})
 			continue
 		}
-		ex := &Exec{prog: l.prog, db: db, fset: l.prog.Fset, maxPaths: 4000, loopCache: map[*ssa.Function]*LoopInfo{}, usedUnknown: map[string]bool{}}
+		ex := &Exec{prog: l.prog, db: db, fset: l.prog.Fset, maxPaths: 4000, loopCache: map[*ssa.Function]*LoopInfo{}, usedUnknown: map[string]bool{}, usedContracts: map[string]bool{}, prop: prop}
 		if c.PathCap > 0 {
 			ex.maxPaths = c.PathCap
 		}
 		ex.verifyFunc(fn, c)
 		rep.Funcs = append(rep.Funcs, FuncInfo{Key: k, Paths: len(ex.paths), Mode: "int", Lemma: c.Lemma, ExitPaths: ex.exitPaths})
 		for _, e := range ex.errors {
-			rep.EngineErrors = append(rep.EngineErrors, EngineErr{Fn: k, Msg: e, Props: c.propList()})
+			ps := c.propList()
+			if prop != "" {
+				ps = []string{prop}
+			}
+			rep.EngineErrors = append(rep.EngineErrors, EngineErr{Fn: k, Msg: e, Props: ps})
 		}
 		for u := range ex.usedUnknown {
 			rep.Unknown[u] = true
@@ -211,6 +227,16 @@ func run() int {
 			}
 		}
 		allPaths = append(allPaths, ex.paths...)
+		if *flagFn == "" {
+			for u := range ex.usedContracts {
+				if !queued[u] {
+					if cc := db.Contracts[u]; cc != nil && !cc.Trusted {
+						queued[u] = true
+						work = append(work, u)
+					}
+				}
+			}
+		}
 	}
 	rep.GenSecs = time.Since(genStart).Seconds()
 	scfg := solveCfg{dir: workdir, timeoutMs: timeout, workers: runtime.NumCPU(), cross: tier == "thorough", prelude: db.prelude()}
